@@ -472,6 +472,182 @@ def run_hear(case, res):
 
 
 # ------------------------------------------------------------------------------------------
+# stream hearm: a real host hears a whole query message -- several questions (QU/QM mixes, re-cased, other record types), probes with
+# authority records, truncated multi-packet queries, legacy source ports -- then asks its own browser questions `gap` ms later
+
+MINE_HOST = "mine.local."
+QPOOL = [("T", 12), ("TU", 12), ("T2", 12), ("T", 255), ("HOST", 1), ("INST", 33), ("INST", 255)]
+
+
+def _qname(tag):
+    return {"T": T, "TU": T.upper(), "T2": T2, "HOST": MINE_HOST, "INST": "Mine." + T}[tag]
+
+
+def _their(tag, t):
+    """a record of the peer's known-answer / authority section"""
+    if tag == "other":
+        return ptr(T, "Other." + T, 4500, t)
+    if tag == "mine":
+        return ptr(T, "Mine." + T, 4500, t)
+    if tag == "new":
+        return ptr(T, "New." + T, 4500, t)
+    if tag.startswith("y"):
+        return ptr(T2, "InstY%s.%s" % (tag[1:], T2), 4500, t)
+    return ptr(T, "Inst%s.%s" % (tag, T), 4500, t)
+
+
+def gen_hearm_case(rng):
+    form = rng.choice(["multi", "multi", "multi", "probe", "probe", "tc", "single"])
+    nq = {"multi": rng.choice([2, 2, 3, 4]), "probe": rng.choice([1, 1, 2]), "tc": rng.choice([1, 2]), "single": 1}[form]
+    qs = [[tag, ty, rng.random() < (0.6 if form == "probe" else 0.3)] for (tag, ty) in
+          (rng.choice(QPOOL[:3] + QPOOL[:3] + QPOOL) for _ in range(nq))]
+    if rng.random() < 0.7 and not any(q[0] in ("T", "TU") and q[1] == 12 for q in qs):
+        qs.insert(rng.randrange(len(qs) + 1), [rng.choice(["T", "T", "TU"]), 12, rng.random() < 0.25])
+    cover = rng.random() < 0.4
+    known = [str(i) for i in range(rng.choice([0, 0, 1, 3]))] + (["other"] if rng.random() < 0.3 else []) + (["mine"] if cover else []) \
+        + (["y0"] if rng.random() < 0.2 else [])
+    rng.shuffle(known)
+    pkts = []
+    if form == "probe":
+        # a probe: the questions plus the records the prober proposes in the authority section; no known answers
+        pkts.append({"qs": qs, "ans": [], "auth": rng.choice([["new"], ["new", "other"], ["0"], ["mine"]]), "tc": False})
+    elif form == "tc":
+        k = rng.choice([2, 2, 3])
+        cut = sorted(rng.randrange(len(known) + 1) for _ in range(k - 1))
+        parts = [known[a:b] for a, b in zip([0] + cut, cut + [len(known)])]
+        split_q = len(qs) > 1 and rng.random() < 0.4
+        for i, part in enumerate(parts):
+            pq = qs if (i == 0 and not split_q) else ([qs[0]] if i == 0 else (qs[1:] if (i == 1 and split_q) else []))
+            pkts.append({"qs": pq, "ans": part, "auth": [], "tc": i < k - 1})
+    else:
+        pkts.append({"qs": qs, "ans": known, "auth": [], "tc": False})
+    return {"stream": "hearm", "simseed": rng.randint(0, 10**6), "form": form, "registered": rng.choice([[T], [T], [T], [T], [T, T2], [T2], []]),
+            "packets": pkts, "port": rng.choice([5353, 5353, 5353, 5353, 40000]), "pgap": rng.choice([0, 0, 0, 30]) if len(pkts) > 1 else 0,
+            "gap": rng.choice([0, 1, 500, 500, 998, 999, 1000, 1001, 3000]), "ours": rng.choice([0, 1, 3]), "oursy": rng.random() < 0.3, "cover": cover,
+            "tick": rng.choice([None, None, None, 0.5])}
+
+
+def run_hearm(case, res):
+    from zeroconf import DNSOutgoing, DNSQuestion, ServiceInfo, const
+    import zeroconf._services.browser as B
+
+    sim = vsim.Sim(case["simseed"], maxdelay=0)
+    out = {}
+    reg = [t.lower() for t in case["registered"]]
+
+    def can(name, ty):
+        """does the host have an answer strategy for this question?  (from the scenario alone: it registered one instance `Mine.<type>`
+        per type in `registered`, all on the host `mine.local.`)"""
+        n = name.lower()
+        if ty in (12, 255) and n in reg:
+            return True
+        if ty in (1, 28, 255) and n == MINE_HOST and reg:
+            return True
+        if ty in (33, 16, 255) and any(n == "mine." + t for t in reg):
+            return True
+        return False
+
+    async def main(sim):
+        host = sim.make_host("B", "10.0.0.2")
+        zc = host.zc
+        await zc.async_wait_for_start()
+        for t in case["registered"]:
+            zc.registry.async_add(ServiceInfo(t, "Mine." + t, port=80, addresses=[b"\x0a\x00\x00\x02"], server=MINE_HOST))
+        await sim.sleep_ms(5000)
+        now0 = sim.loop.ms
+        mine = [ptr(T, "Inst%d.%s" % (i, T), 4500, now0 - 1000) for i in range(case["ours"])]
+        if case["oursy"]:
+            mine.append(ptr(T2, "InstY0." + T2, 4500, now0 - 1000))
+        if case["cover"]:
+            mine.append(ptr(T, "Mine." + T, 4500, now0 - 1000))
+        zc.cache.async_add_records(mine)
+        pre = hist_tokens(zc.question_history)
+        toks = []
+        times = []
+        for i, pk in enumerate(case["packets"]):
+            if i and case["pgap"]:
+                await sim.sleep_ms(case["pgap"])
+            t = sim.loop.ms
+            times.append(t)
+            q = DNSOutgoing(const._FLAGS_QR_QUERY | (const._FLAGS_TC if pk["tc"] else 0))
+            qtok = []
+            for (tag, ty, qu) in pk["qs"]:
+                qq = DNSQuestion(_qname(tag), ty, const._CLASS_IN)
+                qq.unicast = qu
+                q.add_question(qq)
+                qtok.append("%s %s" % (C.question_line(qq), C.b01(can(qq.name, ty))))
+            recs = []
+            for tag in pk["ans"]:
+                r = _their(tag, t)
+                q.add_answer_at_time(r, 0)
+                recs.append(r)
+            for tag in pk["auth"]:
+                r = _their(tag, t)
+                q.add_authorative_answer(r)
+                recs.append(r)
+            data = q.packets()
+            assert len(data) == 1
+            host.inject(data[0], "10.0.0.9", case["port"])
+            toks.append("%s %d %s %d %s" % (C.b01(bool(pk["auth"])), len(qtok), " ".join(qtok), len(recs), " ".join(C.rec_line(r, created=t) for r in recs)))
+        out["times"] = times
+        out["hear"] = (" ".join(("c13hearm %d %s %d %s" % (times[-1], pre, len(toks), " ".join(toks))).split()), hist_str(zc.question_history), "hearm")
+        if case.get("tick") is not None:
+            g1 = int(case["gap"] * case["tick"])
+            await sim.sleep_ms(g1)
+            pre_t = hist_tokens(zc.question_history)
+            zc.engine._async_cache_cleanup()
+            out["tick"] = ("c13expire %d %s" % (sim.loop.ms, pre_t), hist_str(zc.question_history), "expire")
+            await sim.sleep_ms(case["gap"] - g1)
+        else:
+            await sim.sleep_ms(case["gap"])
+        now = sim.loop.ms
+        out["now"] = now
+        pre_hist, pre_cache = hist_tokens(zc.question_history), cache_tokens(zc.cache)
+        ts = {T, T2}
+        outs = B.generate_service_query(zc, float(now), ts, True, None)
+        tl = list(ts)
+        out["svc"] = ("c13svc %d 0 %s %s %d %s" % (now, pre_cache, pre_hist, len(tl), " ".join(C.hs(x) for x in tl)),
+                      "%s || %s" % (outs_str(outs, float(now)), hist_str(zc.question_history)), "svc")
+        out["asked"] = {q.name.lower() for o_ in outs for q in o_.questions}
+        await vsim.close_host(host)
+
+    sim.run(main)
+    bad = loop_errors(sim)
+    # ---- the property's sentence, from the scenario alone
+    t_first, t_last, now = out["times"][0], out["times"][-1], out["now"]
+    theirs = [tag for pk in case["packets"] if not pk["auth"] for tag in pk["ans"]]     # a probe's records are not known answers
+    for ty in (T, T2):
+        heard_qm = any(_qname(tag).lower() == ty.lower() and qt == 12 and not qu and can(_qname(tag), qt) for pk in case["packets"] for (tag, qt, qu) in pk["qs"])
+        if ty == T:
+            ours = {str(i) for i in range(case["ours"])} | ({"mine"} if case["cover"] else set())
+            foreign = [x for x in theirs if x.startswith("y")]
+        else:
+            ours = {"y0"} if case["oursy"] else set()
+            foreign = [x for x in theirs if not x.startswith("y")]
+        same = [x for x in theirs if x not in foreign]
+        # reading (named in notes/agents/C13.md): "nothing it does not know itself" = nothing it would not list itself as a known answer
+        # to this question; a record of another question in the peer's list (`foreign`) that we hold in the cache leaves both
+        # directions open
+        covered = not foreign and set(same) <= ours
+        uncovered = not set(same) <= ours     # a record of this very question that we do not hold: the peer knows more, we have to ask
+        asked = ty.lower() in out["asked"]
+        demand_sup = heard_qm and case["port"] == 5353 and covered and now - t_first <= 999
+        demand_sent = (not heard_qm) or now - t_last > 999 or uncovered
+        if demand_sup and asked:
+            bad.append(("C13:heard-question-suppression", "a %s-question query (%s) from port %d was heard %d ms earlier by a host authoritative for %s; its QM question %s "
+                        "came with known answers %s, all of which we list ourselves, yet our own QM question was sent"
+                        % (sum(len(pk["qs"]) for pk in case["packets"]), case["form"], case["port"], now - t_first, case["registered"], ty, theirs)))
+        elif demand_sent and not asked:
+            bad.append(("C13:heard-question-suppression", "our QM question %s was suppressed %d ms after a %s query although %s"
+                        % (ty, now - t_last, case["form"], "no QM question for it was heard by us as its responder" if not heard_qm else
+                           ("the window had passed" if now - t_last > 999 else "the peer listed a record we do not hold"))))
+    pairs = [out["svc"], out["hear"]] + ([out["tick"]] if "tick" in out else [])
+    sig = ("hearm", case["form"], tuple(sorted(case["registered"])), case["port"] == 5353, min(case["gap"], 1001), len(case["packets"]),
+           tuple(sorted((tag, ty, qu) for pk in case["packets"] for (tag, ty, qu) in pk["qs"]))[:3], bool(theirs))
+    return pairs, bad, sig
+
+
+# ------------------------------------------------------------------------------------------
 # stream loop (virtual time)
 
 
@@ -632,7 +808,7 @@ def loop_model_check(res, case, run_driver):
 # ------------------------------------------------------------------------------------------
 
 
-RUNNERS = {"svc": run_svc, "req": run_req, "hear": run_hear, "loop": run_loop}
+RUNNERS = {"svc": run_svc, "req": run_req, "hear": run_hear, "hearm": run_hearm, "loop": run_loop}
 
 
 def guarded(case, res):
@@ -660,11 +836,12 @@ def run(ctx):
     n_svc = C.Budget(ctx["tier"], 700, 12000).n * scale
     n_big = C.Budget(ctx["tier"], 12, 150).n
     n_req = C.Budget(ctx["tier"], 500, 8000).n * scale
-    n_hear = C.Budget(ctx["tier"], 120, 1500).n * scale
+    n_hear = C.Budget(ctx["tier"], 80, 1000).n * scale
+    n_hearm = C.Budget(ctx["tier"], 160, 2500).n * scale
     n_loop = C.Budget(ctx["tier"], 150, 2500).n * scale
     cases = [body.get("case", body) for _, body in C.load_corpus("C13")]
     cases += [gen_svc_case(rng) for _ in range(n_svc)] + [gen_svc_case(rng, big=True) for _ in range(n_big)]
-    cases += [gen_req_case(rng) for _ in range(n_req)] + [gen_hear_case(rng) for _ in range(n_hear)] + [gen_loop_case(rng) for _ in range(n_loop)]
+    cases += [gen_req_case(rng) for _ in range(n_req)] + [gen_hear_case(rng) for _ in range(n_hear)] + [gen_hearm_case(rng) for _ in range(n_hearm)] + [gen_loop_case(rng) for _ in range(n_loop)]
     res.rule = ("svc: cache of 0-400 PTRs (ages 0, half TTL -1/0/+1, expiry -1/0/+1, random; 2 types, re-cased owner names, noise records) x forced QU/QM/none "
                 "x multicast/unicast x an earlier asker (same instance with the same/smaller/larger cache, or a question heard as responder) at gaps "
                 "{0,1,500,998,999,1000,1001,5000}; req: lookup request queries over SRV/TXT/A/AAAA ages; hear: real host hears a question from the link; "
